@@ -42,7 +42,7 @@ ASSUMPTIONS = [
     "what reaches the loop exception handler is diagnostic only",
     "timeouts > 0",
 ]
-MINIMUMS = {"monitor:cancel-honoured": 1000, "cancel_requests_too_late": 100, "monitor:terminates": 2000, "monitor:outcome": 1500, "timeouts_fired": 300, "caller_cancels_delivered": 200, "function_ended_cancelled": 50, "overlapping_calls_through_one_wrapper": 500, "function_finished_in_time_while_a_bystander_blocks_the_loop_past_the_deadline": 25, "calls_of_callables_with_another_advertised_signature": 2, "timeouted_calls_made_by_descendants_of_an_ended_timeouted_call": 100}
+MINIMUMS = {"monitor:cancel-honoured": 1000, "cancel_requests_too_late": 100, "monitor:terminates": 2000, "monitor:outcome": 1500, "timeouts_fired": 300, "caller_cancels_delivered": 200, "function_ended_cancelled": 50, "overlapping_calls_through_one_wrapper": 500, "function_finished_in_time_while_a_bystander_blocks_the_loop_past_the_deadline": 25, "calls_of_callables_with_another_advertised_signature": 2, "timeouted_calls_made_by_descendants_of_an_ended_timeouted_call": 100, "timeouted_calls_prepared_before_any_loop_was_running": 8}
 JOBS = {"quick": 4, "thorough": 8}
 LEVEL_TEXT = (
     "Every cell of the table durations {0,1,1.25,2} x outcomes {value, falsy value, Exception, falsy Exception, BaseException, self-cancel, ignores-first-cancel, cancelled-cleanup-raises} x "
@@ -422,6 +422,81 @@ def descendant_cases():  # noqa: ANN201
                     yield {"descendant": True, "how": how, "outer_timeout": To, "outer_duration": outer_d, "wait": wait, "inner_timeout": Ti, "inner_duration": inner_d}
 
 
+def run_prepared(R: Recorder, case: dict[str, Any], verbose: bool = False) -> None:
+    """the call is written where no event loop is running yet - `asyncio.run(fetch(...))`, `loop.run_until_complete(fetch(...))`, a batch of
+    calls prepared up front: calling a timeouted function hands out a coroutine like calling any async function does; it starts (and its
+    deadline starts) when a loop runs it"""
+    from haiway import timeout
+
+    T, d, outcome = case["T"], case["d"], case["outcome"]
+    clock = VClock()
+    t0 = clock.now
+    fn: dict[str, Any] = {"started_at": None, "cancel_seen_at": None, "value": ("value", object()), "exc": ValueError("function failed")}
+    got: dict[str, Any] = {}
+
+    @timeout(T)
+    async def function(tag: str, *, extra: int = 0) -> Any:
+        fn["started_at"] = clock.now - t0
+        fn["args"] = (tag, extra)
+        try:
+            await asyncio.sleep(d)
+        except asyncio.CancelledError:
+            fn["cancel_seen_at"] = clock.now - t0
+            raise
+        if outcome == "raise":
+            raise fn["exc"]
+        return fn["value"]
+
+    try:
+        prepared = function("prepared", extra=3)  # no loop is running here
+        got["prepared"] = "coroutine" if asyncio.iscoroutine(prepared) else type(prepared).__name__
+    except BaseException as exc:  # noqa: BLE001
+        prepared = None
+        got["prepared"] = repr(exc)
+
+    async def main(loop: Any) -> None:
+        await asyncio.sleep(0.25)  # the loop has been running for a while when the prepared call is awaited
+        start = clock.now - t0
+        try:
+            got["result"] = ("value", await prepared, clock.now - t0 - start)  # type: ignore[misc]
+        except BaseException as exc:  # noqa: BLE001
+            got["result"] = ("raise", exc, clock.now - t0 - start)
+        await asyncio.sleep(5)
+        got["settled"] = True
+
+    if prepared is not None:
+        with patched_time(clock):
+            status, value, loop = run_virtual(main, clock=clock, max_iterations=20000)
+    else:
+        status, value = "not-run", None
+    R.case(case, nontrivial=True)
+    R.count("timeouted_calls_prepared_before_any_loop_was_running")
+    where = {"family": "prepared", "scoped": False, "nested": False}
+    if verbose:
+        print(status, value, got, fn)
+    R.monitor("terminates", status == "ok" and bool(got.get("settled")), where={**where, "kind": "call-could-not-be-prepared" if prepared is None else (status if status != "ok" else "caller-not-done")},
+              detail=f"function('prepared', extra=3) written outside a running loop gave {got.get('prepared')}; run ended {status} ({value!r}); {got}", case=case)
+    if status != "ok" or not got.get("settled"):
+        return
+    res = got["result"]
+    if d < T:
+        want = fn["value"] if outcome == "value" else fn["exc"]
+        ok = res[0] == ("value" if outcome == "value" else "raise") and res[1] is want and res[2] == d
+        exp = f"the function's own outcome after {d}"
+    else:
+        ok = res[0] == "raise" and type(res[1]) is TimeoutError and res[2] == T and fn["cancel_seen_at"] == 0.25 + T
+        exp = f"TimeoutError after {T} and a cancelled function"
+        R.count("timeouts_fired")
+    R.monitor("outcome", ok and fn.get("args") == ("prepared", 3), where={**where, "kind": "wrong-outcome", "expected": "its value" if d < T else "TimeoutError"},
+              detail=f"prepared call (timeout {T}, function sleeping {d}, outcome {outcome}) awaited at +0.25 ended {res!r}; expected {exp}; function: {fn}", case=case)
+
+
+def prepared_cases():  # noqa: ANN201
+    for T, d in ((1.0, 0.5), (1.0, 2.0), (0.5, 0.0), (2.0, 8.0)):
+        for outcome in ("value", "raise"):
+            yield {"prepared": True, "T": T, "d": d, "outcome": outcome}
+
+
 def run_rewrap(R: Recorder, case: dict[str, Any], verbose: bool = False) -> None:
     """w1 = timeout(A)(f) is kept; later w2 = timeout(B)(w1) is built from it: w1 keeps its own deadline A, w2 has min(A, B)"""
     from haiway import timeout
@@ -524,6 +599,9 @@ def run(R: Recorder, tier: str, seed: int, shard: int, nshards: int) -> None:
     for i, case in enumerate(descendant_cases()):
         if i % nshards == shard:
             run_descendant(R, case)
+    if shard == 1 % nshards:
+        for case in prepared_cases():
+            run_prepared(R, case)
     R.flags["exhaustive"] = True
     R.flags["exhaustive_core"] = "full table durations x outcomes x timeouts x cancel instants x scoped (+ nested timeouts)"
     for i, case in enumerate(cases(tier)):
@@ -543,5 +621,8 @@ def replay(R: Recorder, case: dict[str, Any]) -> None:
         return
     if case.get("descendant"):
         run_descendant(R, case, verbose=True)
+        return
+    if case.get("prepared"):
+        run_prepared(R, case, verbose=True)
         return
     (run_rewrap if case.get("rewrap") else run_overlap if case.get("overlap") else run_case)(R, case, verbose=True)
